@@ -187,7 +187,7 @@ let handle (i : string list) (o : string list) =
   | "R" :: desc ->
     let (m, p) = pkt_of_desc desc in
     let bytes = rfc_alc_encode p in
-    let model = observe_parse m bytes in
+    let model = observe_parse_fixed m bytes in
     let impl = obs_of_tokens o in
     let demanded = wf_pkt p && parse_demand m p in
     if not (p_C06_parse m p impl) then
@@ -200,7 +200,7 @@ let handle (i : string list) (o : string list) =
     else verdict_ok demanded
   | ["M"; m; hexs] ->
     let bytes = bytes_of_hex hexs in
-    let model = observe_parse (h m) bytes in
+    let model = observe_parse_fixed (h m) bytes in
     let impl = obs_of_tokens o in
     if impl <> model then verdict_diff (String.map (fun c -> if c = ' ' then '_' else c) (show_obs model))
     else verdict_ok (match model with Ok _ -> true | _ -> false)
